@@ -73,7 +73,14 @@ def gen_case(rng, big=False, tie=False):
     rng.shuffle(types)
     config = "line" if tie else rng.choice(["gas", "gas", "lattice", "cluster"])
     frames = []
+    shear = kind == "tri" and T >= 2 and rng.random() < 0.6    # same box lengths, another tilt in every frame (a sheared cell)
+    H0 = H
     for _ in range(T):
+        if shear:
+            H = [row[:] for row in H0]
+            for i in range(d):
+                for j in range(i):
+                    H[i][j] = dec(rng, -2, 2, 2)
         Lf = [float(x) for x in L]
         if config == "line":
             y = [str(Fraction(rng.randint(0, 16), 4)) for _ in range(d)]
@@ -96,7 +103,7 @@ def gen_case(rng, big=False, tie=False):
                 pos.append(["%.3f" % (c[k] + rng.uniform(-0.9, 0.9)) for k in range(d)])
         frames.append({"H": H, "types": types, "pos": pos})
     return {"d": d, "K": K, "N": N, "T": T, "kind": kind, "ppp": ppp, "box": L, "rdelta": delta, "frames": frames,
-            "config": config, "tie": tie, "csv": rng.random() < 0.25}
+            "config": config, "tie": tie, "csv": rng.random() < 0.25, "shear": shear}
 
 
 def op_line(c):
@@ -343,7 +350,8 @@ def run_cases(run, cases, record=True):
         res = judge(c, parsed)
         if record:
             for nm, v in (("species", c["K"]), ("dim", c["d"]), ("cell", c["kind"]), ("mask", "".join(c["ppp"])), ("frames", c["T"]),
-                          ("config", c["config"]), ("rdelta", c["rdelta"]), ("method", parsed["method"])):
+                          ("config", c["config"]), ("rdelta", c["rdelta"]), ("method", parsed["method"]),
+                          ("sheared_frames", bool(c.get("shear")))):
                 run.hist(nm, v)
         if res[0] == "skip":
             if record:
